@@ -21,7 +21,6 @@ type FA struct {
 	rejOnly map[int]bool   // block can only reach rejecting exits
 }
 
-
 func (p *Program) FA(fn *ssa.Function) *FA {
 	if a := p.fas[fn]; a != nil {
 		return a
